@@ -8,7 +8,9 @@ From Lospan Require Import Base.Bytes Base.Outcome Model.FrameTypes Model.Frame 
    which keeps the nonce table) - no DevNonce is honoured twice, and none that is already in
    the durable nonce table is honoured at all. *)
 Theorem C05_once :
-  forall (E D : list N -> list N -> list N) cfg apps,
+  forall (E D : list N -> list N -> list N),
+    (forall k b, length (E k b) = 16%nat /\ bytes_ok (E k b) = true) ->
+    forall cfg apps,
     cfg_disable_nonce_check cfg = false ->
     forall evs st, fb_down st -> Forall jev_ok evs ->
     NoDup (snd (jrun E D cfg apps st evs)) /\ Forall (fun n => ~ In n (ds_nonces st)) (snd (jrun E D cfg apps st evs)).
@@ -18,7 +20,9 @@ Proof. exact nonce_honoured_once. Qed.
    session keys are those of the most recent honoured join (those conveyed by its join-accept,
    C04_session_agrees), or the initial ones if no join was honoured. *)
 Theorem C05_agree :
-  forall (E D : list N -> list N -> list N) cfg apps evs st r,
+  forall (E D : list N -> list N -> list N),
+    (forall k b, length (E k b) = 16%nat /\ bytes_ok (E k b) = true) ->
+    forall cfg apps evs st r,
     ds_row st = Some r -> fb_down st -> Forall jev_ok evs ->
     exists r', ds_row (fst (jrun E D cfg apps st evs)) = Some r' /\
                session_keys r' = last_keys E D cfg apps st evs (session_keys r).
